@@ -938,6 +938,8 @@ def setitem(I, base, idx, val):
                         z3.SubSeq(c.term, t + 1, n_ - t - 1))
         I.set_container(base.ref, LSeq(new, c.elem))
         return
+    if base.tag in ("none", "int", "real", "bool"):
+        I.raise_("TypeError", "'%s' object does not support item assignment" % base.tag)
     raise Unsupported("item assignment on %r" % base)
 
 
